@@ -111,9 +111,10 @@ def lcmInh (bits a b : Nat) : Option Nat := if Nat.lcm a b < 2 ^ bits then some 
 /-- `MulAdd::mul_add(self, a, b)`: `(self * a) + b` with the wrapping operators. -/
 def mulAdd (bits x a b : Nat) : Nat := wadd bits (wmul bits x a) b
 
-/-- `PrimInt::pow(self, exp: u32)`: `self.pow(Self::from(exp))`; `Uint::from` panics when `exp` does not
-    fit the width. -/
-def powU32 (bits a e : Nat) : Option Nat := if e < 2 ^ bits then some (wpow bits a e) else none
+/-- `PrimInt::pow(self, exp: u32)`: square-and-multiply on the `u32` exponent with the wrapping operators
+    (`BITS == 0` returns `self`). Before commit "fix: PrimInt::pow" it was `self.pow(Self::from(exp))`, whose
+    conversion panicked whenever `exp` was not representable at the width (`BITS < 32`). -/
+def powU32 (bits a e : Nat) : Nat := if bits = 0 then a else wpow bits a e
 
 /-- `n` big-endian bytes of `v` (`to_be_bytes_vec` with `n = BYTES`). -/
 def beBytes : Nat → Nat → List Nat
